@@ -66,38 +66,45 @@ func scripts(length int, singles, pairs []answer) [][]answer {
 	return out
 }
 
-func noEnqAfterAdv(h []step, s step) bool {
-	return s.Op == "enq" && (count(h, "adv") > 0 || count(h, "half") > 0)
+// no enqueue once time has been moved (groups whose subject is not timing)
+func noEnqAfterTime(h []step, s step) bool {
+	return s.Op == "enq" && (count(h, "adv") > 0 || count(h, "half") > 0 || count(h, "wait") > 0)
 }
 
 func buildGroups(r *ev.Run) []*group {
 	th := r.Thorough()
 	noFault := [][]answer{{}}
 	var gs []*group
-	// routing, batching by destination, MaxBatchSize, stale dispatch timing, stop: small events, no faults
+	// routing: which request an event ends up in, MaxBatchSize, flush by time (wait) and by stop; 3 destinations that
+	// differ pairwise in one or two components
 	gs = append(gs, &group{Name: "route3", Ms: []int{1, 2, 3}, Compress: true, Dests: []string{"A", "B", "C"}, Sizes: []int{szSmall},
-		MaxEnq: ev.Pick(r, 4, 5), MaxAdv: ev.Pick(r, 6, 7), Half: true, Scripts: noFault, Prefix: 2})
+		MaxEnq: 5, Wait: true, Scripts: noFault, Prefix: 2, Veto: noEnqAfterTime})
+	// ... and the pair that differs in the API key only
 	gs = append(gs, &group{Name: "route2", Ms: []int{1, 2, 3}, Compress: false, Dests: []string{"A", "D"}, Sizes: []int{szSmall},
-		MaxEnq: 5, MaxAdv: ev.Pick(r, 6, 7), Half: true, Scripts: noFault, Prefix: 2})
-	// event size limit: every size class, fault-free and with one fault on the first request
+		MaxEnq: 5, Wait: true, Scripts: noFault, Prefix: 2, Veto: noEnqAfterTime})
+	// timing: enqueues interleaved with ticks and one half tick
+	gs = append(gs, &group{Name: "timing", Ms: []int{2, 3}, Compress: true, Dests: []string{"A", "B"}, Sizes: []int{szSmall},
+		MaxEnq: ev.Pick(r, 3, 4), MaxAdv: ev.Pick(r, 7, 8), Half: true, Scripts: noFault, Prefix: 2})
+	// event size limit: every size class in every batch position, fault-free and with one fault on the first request
 	first := scripts(1, []answer{{Kind: "timeout"}, {Kind: "429", RA: "1"}, {Kind: "500"}, {Kind: "short"}}, nil)
 	gs = append(gs, &group{Name: "sizes", Ms: []int{1, 2, 3}, Compress: true, Dests: []string{"A", "B"},
-		Sizes: []int{szSmall, sz099, szMax, szOver1, sz101}, MaxEnq: ev.Pick(r, 3, 4), MaxAdv: 5, Half: false, Scripts: first, Prefix: 1, Veto: noEnqAfterAdv})
+		Sizes: []int{szSmall, sz099, szMax, szOver1, sz101}, MaxEnq: ev.Pick(r, 3, 4), Wait: true, Scripts: first, Prefix: 1,
+		Veto: func(h []step, s step) bool { return noEnqAfterTime(h, s) || (s.Op == "enq" && s.Dest == "B" && s.Size != szSmall) }})
 	// 5 MB body limit: needs MaxBatchSize ≥ 5 (a batch of ≤ 3 events of ≤ 1 MB cannot reach it)
 	splitSizes := []int{szMax, szSmall}
-	splitScripts := scripts(2, []answer{{Kind: "timeout"}, {Kind: "429", RA: ""}, {Kind: "500"}, {Kind: "short"}}, nil)
+	splitScripts := [][]answer{{}, {{Kind: "timeout"}}, {ok, {Kind: "timeout"}}, {{Kind: "429"}}, {{Kind: "500"}}, {ok, {Kind: "short"}}}
 	if th {
 		splitSizes = []int{szMax, szAlmost, sz099, szSmall}
 		splitScripts = scripts(2, faultKindsReduced(), faultKindsReduced())
 	}
 	gs = append(gs, &group{Name: "split5MB", Ms: []int{5, 6}, Compress: false, Dests: []string{"A"}, Sizes: splitSizes,
-		MaxEnq: 6, MaxAdv: 5, Half: false, Scripts: splitScripts, Prefix: 2, Veto: noEnqAfterAdv})
+		MaxEnq: 6, Wait: true, Scripts: splitScripts, Prefix: 2, Veto: noEnqAfterTime})
 	// fault scripts: ≤ 3 answers, ≤ 2 faults
 	pairs := faultKindsReduced()
 	if th {
 		pairs = faultKinds(true)
 	}
 	gs = append(gs, &group{Name: "faults", Ms: []int{1, 2}, Compress: true, Dests: []string{"A", "B"}, Sizes: []int{szSmall},
-		MaxEnq: 3, MaxAdv: ev.Pick(r, 5, 7), Half: false, Scripts: scripts(3, faultKinds(th), pairs), Prefix: 0})
+		MaxEnq: 3, MaxAdv: ev.Pick(r, 5, 7), Scripts: scripts(3, faultKinds(th), pairs), Prefix: 0})
 	return gs
 }
